@@ -103,6 +103,24 @@ func cmdTTL(args []string) {
 			})
 		})
 		setext.deadline, setext.exact = setext.deadline.Add(time.Hour), true
+		// a transaction that deletes a row with a deadline and inserts another row, then a row without
+		// a TTL that takes the freed offset over: it must not inherit the old deadline - on the
+		// primary, on the restored collection and on the replica (where the commit is replayed)
+		victim := ins("deleted-with-ttl", time.Hour, false)
+		rows = rows[:len(rows)-1]
+		c.Query(func(txn *column.Txn) error {
+			txn.DeleteAt(victim.off)
+			_, err := txn.Insert(func(row column.Row) error {
+				row.SetInt64("v", 2)
+				row.SetTTL(2 * time.Hour)
+				return nil
+			})
+			return err
+		})
+		heir := ins("no-ttl-on-a-reused-offset", 0, false)
+		if heir.off != victim.off {
+			heir.name = fmt.Sprintf("no-ttl (offset %d, the deleted row was %d)", heir.off, victim.off)
+		}
 		reset := ins("ttl-reset-to-none", 70*time.Millisecond, false)
 		c.QueryAt(reset.off, func(r column.Row) error { r.SetTTL(0); return nil })
 		short2 := ins("short-b", time.Duration(150+rng.Intn(100))*time.Millisecond, true)
